@@ -357,6 +357,8 @@ func runC03(p *Prog, r *Report, tier string) {
 	}
 
 	checkInfoElementImmutable(p, r, "R-OWNER.info-element")
+	checkTruncateBounds(p, r, "R-BOUNDS.truncate")
+	checkNarrowSizeArithmetic(p, r, "R-ALLOC.narrow", "pkg/collector", "pkg/entities", "pkg/util")
 	checkSpecifierFreshness(p, r, "R-EXACT.field-specifier")
 	checkRecordLoopExits(p, r, "R-EXACT.record-loop")
 	checkBufferReads(p, r, "R-BOUNDS.read")
@@ -904,5 +906,164 @@ func checkRecordLoopExits(p *Prog, r *Report, rule string) {
 	}
 	if n == 0 {
 		r.Undecided(rule, fnKey(f)+": loop over the remaining bytes", p.pos(f.Pos()), "no loop conditioned on buffer.Len() > 0 found")
+	}
+}
+
+// checkTruncateBounds: bytes.Buffer.Truncate(n) panics unless 0 <= n <= Len(). Every Truncate on the decode path is
+// given an n that is known to be within those bounds where the call stands: the upper bound by a dominating comparison
+// with Len() of the same buffer, the lower bound by construction (an unsigned wire value, a sum of such) or - when n is
+// a difference - by a dominating n >= 0 (or minuend >= subtrahend) test.
+func checkTruncateBounds(p *Prog, r *Report, rule string) {
+	scope, _ := decodeScope(p)
+	var nonNeg func(v ssa.Value, d int) bool
+	nonNeg = func(v ssa.Value, d int) bool {
+		if d > 6 {
+			return false
+		}
+		v = stripChange(v)
+		if c, ok := constInt(v); ok {
+			return c >= 0
+		}
+		switch x := v.(type) {
+		case *ssa.Convert:
+			if _, uns, ok := intSize(x.X.Type()); ok && uns {
+				if sz, _, _ := intSize(x.X.Type()); sz < 8 {
+					return true // zero-extended
+				}
+			}
+			return nonNeg(x.X, d+1)
+		case *ssa.BinOp:
+			if x.Op == token.ADD || x.Op == token.MUL {
+				return nonNeg(x.X, d+1) && nonNeg(x.Y, d+1)
+			}
+		case *ssa.Call:
+			if b, ok := x.Call.Value.(*ssa.Builtin); ok && (b.Name() == "len" || b.Name() == "cap") {
+				return true
+			}
+			if calleeName(&x.Call) == "(*bytes.Buffer).Len" {
+				return true
+			}
+		case *ssa.Phi:
+			for _, e := range x.Edges {
+				if e != v && !nonNeg(e, d+1) {
+					return false
+				}
+			}
+			return true
+		}
+		return false
+	}
+	n := 0
+	for f := range scope {
+		eachInstr(f, func(in ssa.Instruction) {
+			c, ok := in.(*ssa.Call)
+			if !ok || calleeName(&c.Call) != "(*bytes.Buffer).Truncate" || len(c.Call.Args) != 2 {
+				return
+			}
+			n++
+			buf, nv := c.Call.Args[0], c.Call.Args[1]
+			lower := nonNeg(nv, 0)
+			upper := false
+			for _, fct := range blockFacts(in.Block()) {
+				if fct.X != nv && !sameValue(fct.X, nv) {
+					continue
+				}
+				if k, ok := constInt(fct.Y); ok && k >= 0 && (fct.Op == token.GEQ || (fct.Op == token.GTR && k >= -1)) {
+					lower = true
+				}
+				if b, ok := isBufLen(fct.Y); ok && b == buf && (fct.Op == token.LSS || fct.Op == token.LEQ) {
+					upper = true
+				}
+			}
+			// a difference whose minuend is known to be at least the subtrahend
+			if sub, ok := stripChange(nv).(*ssa.BinOp); ok && sub.Op == token.SUB && !lower {
+				for _, fct := range blockFacts(in.Block()) {
+					if sameValue(fct.X, sub.X) && sameValue(fct.Y, sub.Y) && (fct.Op == token.GEQ || fct.Op == token.GTR) {
+						lower = true
+					}
+				}
+			}
+			why := ""
+			switch {
+			case !lower && !upper:
+				why = "neither bound of n is established"
+			case !lower:
+				why = "n can be negative (a difference of a wire value and a constant) and is not tested against 0"
+			case !upper:
+				why = "n is not compared with Len() of the buffer"
+			}
+			r.Check(why == "", rule, fnKey(f)+": Truncate within [0, Len()]", p.instrPos(in), "0 <= n <= buffer.Len() where the call stands",
+				why+": bytes.Buffer.Truncate panics for a message whose length field makes n fall outside the buffer, in the goroutine that serves the exporter", true)
+		})
+	}
+	if n == 0 {
+		r.Undecided(rule, "anchor: Truncate calls on the decode path", "pkg/collector/process.go", "none found")
+	}
+}
+
+// checkNarrowSizeArithmetic: a buffer size computed in an 8- or 16-bit integer type wraps around at the top of the type
+// (uint16(65535)+1 == 0): every make() in the given packages takes a length whose arithmetic (+, -, *) is done in int
+// (or another type of at least 32 bits) - operands may be narrow, the operation may not.
+func checkNarrowSizeArithmetic(p *Prog, r *Report, rule string, pkgs ...string) {
+	n, bad := 0, 0
+	for _, f := range p.RepoFns {
+		in := false
+		for _, pk := range pkgs {
+			if keyInPkg(fnKey(f), pk) {
+				in = true
+			}
+		}
+		if !in {
+			continue
+		}
+		eachInstr(f, func(x ssa.Instruction) {
+			ms, ok := x.(*ssa.MakeSlice)
+			if !ok {
+				return
+			}
+			n++
+			var walk func(v ssa.Value, d int) ssa.Value
+			walk = func(v ssa.Value, d int) ssa.Value {
+				if d > 6 || v == nil {
+					return nil
+				}
+				switch y := stripChange(v).(type) {
+				case *ssa.Convert:
+					return walk(y.X, d+1)
+				case *ssa.BinOp:
+					if y.Op == token.ADD || y.Op == token.SUB || y.Op == token.MUL {
+						if sz, _, ok := intSize(y.Type()); ok && sz < 4 {
+							if _, isC := constInt(y); !isC {
+								return y
+							}
+						}
+						if w := walk(y.X, d+1); w != nil {
+							return w
+						}
+						return walk(y.Y, d+1)
+					}
+				case *ssa.Phi:
+					for _, e := range y.Edges {
+						if e != v {
+							if w := walk(e, d+1); w != nil {
+								return w
+							}
+						}
+					}
+				}
+				return nil
+			}
+			for _, sz := range []ssa.Value{ms.Len, ms.Cap} {
+				if w := walk(sz, 0); w != nil {
+					bad++
+					r.Violation(rule, fnKey(f)+": buffer size computed in a narrow integer type", p.instrPos(x),
+						fmt.Sprintf("the size of this buffer involves %s computed in %s: at the top of the type's range it wraps around (65535+1 == 0), the buffer is allocated too small (or empty) and everything read into it is lost", w.String(), w.Type().String()))
+					return
+				}
+			}
+		})
+	}
+	if bad == 0 {
+		r.OK(rule, strings.Join(pkgs, ",")+": no buffer size is computed in an 8/16-bit type", strings.Join(pkgs, ","), fmt.Sprintf("%d make() sites", n), true)
 	}
 }
